@@ -114,10 +114,10 @@ func judge(pc podCase, o *outcome) []finding {
 	// (5) idempotent mutation; mutation must not change validity
 	if o.MutErr == "" && o.AdmPanic == "" {
 		if !o.Idempotent {
-			add(fmt.Sprintf("mutate-not-idempotent named=%s limit=%s", pc.Named, pc.Limit), "Mutate(Mutate(p)) != Mutate(p) (second error: %q)", o.Mut2Err)
+			add(fmt.Sprintf("mutate-not-idempotent named=%s", pc.Named), "Mutate(Mutate(p)) != Mutate(p) (second error: %q)", o.Mut2Err)
 		}
 		if (o.ValOrig == "") != (o.ValMut == "") {
-			add(fmt.Sprintf("mutation-changes-validity named=%s limit=%s", pc.Named, pc.Limit), "Validate(p)=%q but Validate(Mutate(p))=%q", o.ValOrig, o.ValMut)
+			add(fmt.Sprintf("mutation-changes-validity named=%s", pc.Named), "Validate(p)=%q but Validate(Mutate(p))=%q", o.ValOrig, o.ValMut)
 		}
 	}
 
@@ -149,7 +149,7 @@ func judge(pc podCase, o *outcome) []finding {
 		}
 		// (4) sharing disabled => anything the scheduler treats as GPU sharing is rejected
 		if !pc.Sharing && o.SShared {
-			add("admission-accepts-sharing-while-disabled "+culprit(false), "GPU sharing is disabled but admission accepted a pod the scheduler treats as %s", o.SType)
+			add("admission-accepts-sharing-while-disabled request="+o.SType, "GPU sharing is disabled but admission accepted a pod the scheduler treats as %s", o.SType)
 		}
 		// (4) malformed => rejected: implied by (1); reported separately only if (1) did not already name it
 		if o.SShared && !malformedAccepted {
